@@ -34,7 +34,7 @@ def flag(d):
 
 
 def proj_values(d):      # C04: what is delivered (values, kinds, order), not the contexts
-    return (flag(d), strip_ctx(d.get('trace')))
+    return (flag(d), strip_ctx(d.get('trace')), d.get('alias'))
 
 
 def proj_grammar(d):     # C01: shape of the delivered trace and of the refused notifications
@@ -66,8 +66,8 @@ ASYNC_BY_DESIGN = ["Interval", "IntervalWithInitial", "FromChannel", "Never", "F
 KNOWN_CTX_ROWS = {("MergeAll", "complete", "lastSeen"), ("OnErrorResumeNextWith", "error", "lastSeen"), ("OnErrorResumeNextWith", "complete", "lastSeen"),
                   ("WhileIWithContext", "subscribe", "lastSeen"), ("ReduceIWithContext", "next", "lastSeen"), ("RepeatWith", "complete", "lastSeen"),
                   ("Timeout", "error", "lastSeen"), ("DefaultIfEmptyWithContext", "next", "outer"), ("ContextReset", "next", "outer"),
-                  ("ContextReset", "error", "outer"), ("ContextReset", "complete", "outer"), ("ToChannel", "next", "todo")}
-KNOWN_STATE_ROWS = {("MergeMapIWithContext", "i"), ("OnErrorResumeNextWith", "finally"), ("ShareWithConfig", "refCount")}
+                  ("ContextReset", "error", "outer"), ("ContextReset", "complete", "outer")}
+KNOWN_STATE_ROWS = {("ShareWithConfig", "refCount")}
 KNOWN_WAITING = ["ConcatAll", "OnErrorResumeNextWith", "RetryWithConfig", "DoWhileIWithContext", "WhileIWithContext", "RepeatWith", "Timer", "detachOn"]
 
 
@@ -114,6 +114,20 @@ def bad_rows(prop):
     return out
 
 
+def combine_search(*fns):
+    """several searches for one property: each is asked in turn; True as soon as one reported something"""
+    fns = [f for f in fns if f]
+    def search(ctx, out):
+        found = False
+        for f in fns:
+            try:
+                found = bool(f(ctx, out)) or found
+            except Exception as e:            # a diagnosis helper must never hide the violation itself
+                ctx.notes.append(f'search helper failed: {e!r}')
+        return found
+    return search
+
+
 def table_search(prop, dynamic=None):
     """search function for report_lake_failure: name the changed rows; `dynamic(ctx, rows)` may turn
     them into a concrete failing input (returns True when it reported a violation with a replay)"""
@@ -154,6 +168,14 @@ def preamble(ctx, race=False, modules=None):
 
 def audit(ctx, modules=None):
     if ctx.lake_failed:
+        # nothing is discharged while the build is broken: list the obligations as open
+        for m in (modules or [ctx.prop]):
+            try:
+                src = open(os.path.join(R.LEAN, 'RoProps', m + '.lean')).read()
+            except OSError:
+                continue
+            for name in re.findall(r'^#print axioms\s+(\S+)', src, flags=re.M):
+                ctx.obligations.append((name, False, None))
         return
     for m in (modules or [ctx.prop]):
         R.axiom_audit(ctx, m)
@@ -197,6 +219,17 @@ def run(ctx):
     if not preamble(ctx, race=getattr(mod, 'NEEDS_RACE', False), modules=getattr(mod, 'LEAN_MODULES', None)):
         return 2
     audit(ctx, getattr(mod, 'LEAN_MODULES', None))
+    if ctx.tier == 'thorough' and not ctx.lake_failed:
+        # independent re-check of the compiled property modules by the toolchain's olean checker
+        for m in (getattr(mod, 'LEAN_MODULES', None) or [ctx.prop]):
+            cmd = ['lake', 'env', 'leanchecker', 'RoProps.' + m]
+            ctx.checker_cmds.append('cd lean && ' + ' '.join(cmd))
+            with R.Lock('lake'):
+                rc, o, e = R.sh(cmd, cwd=R.LEAN, timeout=1800)
+            if rc != 0:
+                ctx.violation(f'leanchecker rejects RoProps.{m}', f'leanchecker RoProps.{m}\n' + (o + e)[-3000:], no_input=True)
+            else:
+                ctx.notes.append(f'leanchecker RoProps.{m}: ok')
     replay_known(ctx)
     info = fn(ctx) or {}
     report_lake_failure(ctx, info.get('search'))
@@ -235,11 +268,25 @@ def replay(ctx, path):
         print('(no case line in this replay file: it names the theorem / table rows that no longer check)')
         return 1
     bad = 0
+    # a check module may judge a replayed case itself (`replay_judge(case, go_res, lean_res) -> list of reasons`),
+    # e.g. when the implementation line carries oracle fields the model line does not have, or say which
+    # fields of a result line take part in the comparison (`replay_proj`)
+    judge = getattr(load_check(ctx.prop), 'replay_judge', None)
+    rproj = getattr(load_check(ctx.prop), 'replay_proj', None)
     for c, g, l in R.replay_cases(ctx, lines):
         print(c)
         print('  implementation:', g)
         print('  model/spec:    ', l)
-        if R.parse_res(g).get('_raw', '').split()[2:] != R.parse_res(l).get('_raw', '').split()[2:]:
+        if judge is not None:
+            reasons = judge(c, g, l)
+            for r in reasons:
+                print('  ->', r)
+            if reasons:
+                bad += 1
+        elif rproj is not None:
+            if rproj(R.parse_res(g)) != rproj(R.parse_res(l)):
+                bad += 1
+        elif R.parse_res(g).get('_raw', '').split()[2:] != R.parse_res(l).get('_raw', '').split()[2:]:
             bad += 1
     print('differs' if bad else 'agrees')
     return 1 if bad else 0
